@@ -219,7 +219,7 @@ where
                 None => {
                     res[i].stages.push((a.n, a.mean, a.se(), f64::NAN));
                     // zero variance exactly on target is fine
-                    if a.se() == 0. && a.mean == tg.theta {
+                    if a.se() == 0. && (a.mean - tg.theta).abs() <= 1e-9 {
                         res[i].verdict = Verdict::Held;
                     } else {
                         res[i].verdict = Verdict::TooFewEvents;
